@@ -372,8 +372,9 @@ def rollup(ctx, o, ps: PassShape, attrs=None):
         if ci is not None:
             fo, itc = ci
             it = sched.whole_seq(ps.ex.expand(itc, ps.cfg.node_of(fo)))
-            if match(f"{ps.task}.children", it):
-                ch_loops.append(fo)
+            cov = _covers_children(ps, it)
+            if match(f"{ps.task}.children", it) or cov is True or (isinstance(cov, str) and cov.startswith('children filtered')):
+                ch_loops.append(fo)       # (a filtered recursion still marks where the children are scheduled; the roll-up terms are checked below)
             elif not (isinstance(it, ast.Name) or match(f"{ps.task}.{ps.rel}", it)):
                 unknown_calls.append(c)       # a loop over something that is neither the children nor a plain local collection
         else:
